@@ -137,6 +137,13 @@ func reopenClockScenario(c *sup.Ctx, r *rng.R) {
 	now := uint64(time.Now().UnixNano())
 	run := &crash.Run{Tmp: c.Tmp, Writer: crash.WriterArgs{Seed: c.Seed*1000 + uint64(c.Local), Ops: 12, Clock: now + 3600e9},
 		Reader: crash.ReaderArgs{Mode: 2 - 2*(c.Local%2), NewWrites: 3, Clock: now - 3600e9}}
+	if (c.Local/4)%2 == 1 {
+		// WithMeta writes store caller-chosen (older) CAS values in several collections: the bucket's persisted
+		// high-water mark must not follow them downwards
+		run.Writer.Profile = "withmeta"
+		run.Writer.EndMeta = (c.Local/8)%2 == 0
+		c.Count("reopen_pairs_after_withmeta_writes", 1)
+	}
 	switch c.Local % 4 {
 	case 0:
 		run.Writer.Clean = true
